@@ -332,8 +332,12 @@ def main(tier):
             ("deep-view-4ops", constants(5), "deep", None),
             ("simulation-8ops", constants(9), "sim", 2000 if tier == "quick" else 30000)]
     if tier == "thorough":
-        plan = [("exhaustive-4ops", constants(5), "export", None),
+        # everything quick runs (the small worlds completely), then one more operation / longer walks
+        plan = [p for p in plan if p[2] != "sim" and p[0] not in ("exhaustive-3ops", "two-packages-3ops",
+                                                                   "deep-view-4ops")] + \
+               [("exhaustive-4ops", constants(5), "export", None),
                 ("two-packages-4ops", constants(5, external=False, two_packages=True), "export", None),
+                ("nested-packages-5ops", constants(6, external=True, world="nested"), "export", None),
                 ("deep-view-5ops", constants(6), "deep", None),
                 ("deep-view-two-packages-5ops", constants(6, two_packages=True), "deep", None),
                 ("simulation-8ops", constants(9), "sim", 30000),
@@ -391,6 +395,18 @@ def main(tier):
         if sens is None:
             verdict.machinery_failure("model insensitive: without ForgetOnStructure ImportsCoherent still holds")
     behs.sort(key=lambda b: json.dumps(b["trail"], sort_keys=True))
+    generated_behaviours = len(behs)
+    CAP = 500000
+    if len(behs) > CAP:
+        # only quiet end states are compared with a fresh project: they go first; of the rest (which only
+        # bind the model of the file system) and of the overflow a seeded sample
+        rnd = common.rng("c13")
+        quiet = [b for b in behs if b["quiet"]]
+        other = [b for b in behs if not b["quiet"]]
+        rnd.shuffle(quiet)
+        rnd.shuffle(other)
+        behs = quiet[:CAP - 20000] + other[:20000]
+        behs.sort(key=lambda b: json.dumps(b["trail"], sort_keys=True))
     replayed = checked = 0
     nontrivial = set()
     samples = []
@@ -420,6 +436,7 @@ def main(tier):
     common.write_evidence(PROP, tier, "model_checking", {
         "states": states, "transitions": trans,
         "traces_validated_against_impl": replayed,
+        "behaviours_generated_by_tlc": generated_behaviours,
         "quiet_states_compared_warm_vs_fresh": checked,
         "distinct_nontrivial": len(nontrivial),
         "samples": samples,
